@@ -28,7 +28,7 @@ def run(chk):
             continue
         chk.count()
         if 'panic' in impl:
-            chk.extra_cov['skipped_panics'] = chk.extra_cov.get('skipped_panics', 0) + 1
+            chk.panic_record(r, impl['panic'], rp)
             continue
         tol = Tol(inp)
         where = '(record %d, %s, n=%d)' % (r.id, r.family, inp.n)
